@@ -32,13 +32,13 @@ def _groups():
     return [g for g in G.GROUPS if not only or g in only.split(",")]
 
 
-def _targets(ctxs, groups=None):
+def _targets(tier, groups=None):
     return [B.Target(os.path.join(B.HARNESS, "c12_%s.cpp" % g), "simd", ["-DC12_CTX=%d" % c], name="c12_%s_%s" % (g, G.CONTEXTS[c][0]))
-            for c in ctxs for g in (groups or G.GROUPS) if G.group_runs(c, g)]
+            for c, g in G.plan(tier, groups)]
 
 
 def _quick_targets():
-    return _targets(G.QUICK_CTX)
+    return _targets("quick")
 
 
 TARGETS_QUICK = [_quick_targets]
@@ -371,7 +371,8 @@ def run(ctx):
     quick = ctx.tier == "quick"
     ctxs = G.QUICK_CTX if quick else G.ALL_CTX
     groups = _groups()
-    targets = _targets(ctxs, groups)
+    targets = _targets(ctx.tier, groups)
+    plan = G.plan(ctx.tier, groups)
     res = B.build(targets)
     bins = {}
     notbuilt = []
@@ -394,10 +395,10 @@ def run(ctx):
     env_fast = {"ASAN_OPTIONS": R.ENV_SAN["ASAN_OPTIONS"] + ":symbolize=0", "UBSAN_OPTIONS": "print_stacktrace=0:halt_on_error=1"}
     dropped = {}
     tim = dict(run=0.0, gen=0.0, oracle=0.0, rerun=0.0)
-    for cid in ctxs:
+    for cid in sorted({c for c, _ in plan}):
         cname = G.CONTEXTS[cid][0]
         for g in groups:
-            if not G.group_runs(cid, g):
+            if (cid, g) not in plan:
                 continue
             cases = []
             t0_ = time.time()
